@@ -131,7 +131,7 @@ class HistoryStream(Stream):
         by_style = {}
         for e in entries:
             by_style.setdefault(e[2], []).append(e)
-        n = 900 if thorough else 110
+        n = 800 if thorough else 150
         maxlen = 12 if thorough else 5
         styles = sorted(by_style)
         for k in range(n):
